@@ -43,7 +43,7 @@ const swaggerDoc = `{
   "/e":{"post":{"operationId":"opE",
     "parameters":[{"name":"n","in":"query","type":"integer","format":"int64"},{"name":"tags","in":"query","type":"array","items":{"type":"string"},"default":["x","y"]},{"name":"body","in":"body","required":true,"schema":{"type":"object"}}],
     "responses":{"200":{"description":"ok"}}}},
-  "/c/{id}":{"get":{"operationId":"opC","security":[{"key":["skc"]},{"tok":["stc1","stc2"]}],
+  "/c/{id}":{"get":{"operationId":"opC","security":[{"key":["skc"]},{"tok":["stc2","stc1"]}],
     "parameters":[{"name":"id","in":"path","type":"string","required":true},{"name":"n","in":"query","type":"integer","format":"int64"},{"name":"tags","in":"query","type":"array","items":{"type":"string"},"default":["x","y"]}],
     "responses":{"200":{"description":"ok"}}}}
  }}`
